@@ -67,6 +67,9 @@ struct InFlight {
 }
 
 struct World<'a> {
+    /// node instances stopped by a restart (kept, never driven again)
+    zombies: Vec<NodeHost>,
+    rewards_addr: RewardsAddress,
     plan: &'a Plan,
     rep: RunReport,
     host: NodeHost,
@@ -129,6 +132,8 @@ impl<'a> World<'a> {
     fn new(plan: &'a Plan, rep: RunReport, host: NodeHost, rewards: RewardsAddress) -> Self {
         let s = plan.seed;
         World {
+            zombies: vec![],
+            rewards_addr: rewards,
             plan,
             rep,
             host,
@@ -1174,6 +1179,53 @@ impl<'a> World<'a> {
                 Step::Run { sel } => {
                     if !self.run_item(*sel).await {
                         self.rep.log("run: nothing pending");
+                    }
+                }
+                Step::Restart => {
+                    // C07, sequential configuration: a clean stop and restart from the node's directory; the stored
+                    // mutable records must be exactly what the accepted deliveries determine (nothing regresses)
+                    if self.plan.mode != "sequential" {
+                        continue;
+                    }
+                    self.pump_fifo().await;
+                    self.evaluate("before-restart");
+                    if !self.rep.violations.is_empty() || !nhooks::gates_pending().is_empty() {
+                        continue;
+                    }
+                    let (root, kp) = (self.host.root.clone(), self.host.keypair.clone());
+                    match NodeHost::build(0, root, kp, None, if self.plan.cache == 0 { None } else { Some(self.plan.cache) }, self.rewards_addr) {
+                        Ok(h) => {
+                            let old = std::mem::replace(&mut self.host, h);
+                            self.zombies.push(old);
+                            let peers: Vec<PeerId> = self.peers.iter().map(|(_, p)| *p).collect();
+                            for (i, pid) in peers.iter().enumerate() {
+                                self.host.driver.verif_add_peer(*pid, peer_addr(i, pid));
+                            }
+                            self.rep.fault("node_restarted");
+                            self.rep.ops += 1;
+                            self.rep.log("node restarted from its directory");
+                            self.drain().await;
+                            for (k, want) in self.model.clone() {
+                                let got = self.read(&k);
+                                let ok = got.as_ref().map(|g| self.stored_equals(g, &want)).unwrap_or(false);
+                                if !ok {
+                                    let kind = match want {
+                                        Stored::Chunk(_) => "chunk",
+                                        Stored::Pad(_) => "scratchpad",
+                                        Stored::Txs(_) => "transaction",
+                                        Stored::Reg(_) => "register",
+                                    };
+                                    self.rep.violate(
+                                        "C07",
+                                        "stored_state_regressed_over_restart",
+                                        &[("kind", kind.into())],
+                                        format!("after a clean restart the stored {kind} record is not what the accepted deliveries had determined ({})", if got.is_some() { "other content" } else { "missing" }),
+                                    );
+                                    break;
+                                }
+                            }
+                        }
+                        Err(e) => self.rep.harness_error = Some(format!("restart: {e}")),
                     }
                 }
                 Step::Settle => {
